@@ -77,3 +77,232 @@ package network
 //@   ensures wrapped: !untyped(simpleHTTPSelf.clientTransport) && simpleHTTPSelf.clientTransport != boxed(simpleHTTPSelf)
 //@   ensures idempotent: old(client.Transport) == boxed(simpleHTTPSelf) ==> simpleHTTPSelf.clientTransport == old(simpleHTTPSelf.clientTransport)
 //@   ensures list: simpleHTTPSelf.interceptors == old(simpleHTTPSelf.interceptors)
+
+// ===================================================================================================
+// C17 - SimpleAPI sends exactly the request it was defined with, lazily, and decodes the answer.
+// TRUSTED library models (engine): http.NewRequestWithContext (fresh request with the given method, URL string and body, or
+// (nil, err)), http.Header.Clone (a fresh map with the same entries; nil for nil), http.Header.Add (a write to that map),
+// http.Client.Do (one event of kind 2: tr_obj = the client, tr_fn = method("http.Client.Do"), tr_arg = the request,
+// tr_err = the error; nil error comes with a response that has a Body), fmt.Sprintf / strings.ReplaceAll (uninterpreted,
+// deterministic).  Strings are not interpreted: the URL clause says WHICH ReplaceAll applications are composed.
+
+// DoRequest: exactly one client.Do with exactly this request; the answer is wrapped as it came
+//@ func (SimpleHTTPDef).DoRequest
+//@   prop C17
+//@   opt callbacks=effectful
+//@   opt effects=trace
+//@   requires simpleHTTPSelf != nil && simpleHTTPSelf.client != nil
+//@   ensures one-do: tr_len == old(tr_len)+1 && tr_kind[old(tr_len)] == 2 && tr_fn[old(tr_len)] == method("http.Client.Do") && tr_obj[old(tr_len)] == simpleHTTPSelf.client && tr_arg[old(tr_len)] == boxed(request)
+//@   ensures wrapped: r0 != nil && fresh(r0) && r0.Request == request && r0.Err == tr_err[old(tr_len)] && boxed(r0.Response) == tr_res[old(tr_len)] && (r0.Err == nil ==> r0.Response != nil && !untyped(r0.Response.Body))
+
+// DoNewRequest: a request that cannot be built is reported as Err without any network call; otherwise exactly one Do of a
+// fresh request with the given method and URL whose header is the given header object (when one is given)
+//@ func (SimpleHTTPDef).DoNewRequest
+//@   prop C17
+//@   opt callbacks=effectful
+//@   opt effects=trace
+//@   requires simpleHTTPSelf != nil && simpleHTTPSelf.client != nil
+//@   ensures result: r0 != nil && fresh(r0)
+//@   ensures not-built: r0.Request == nil ==> tr_len == old(tr_len) && r0.Err != nil
+//@   ensures sent-once: r0.Request != nil ==> tr_len == old(tr_len)+1 && tr_kind[old(tr_len)] == 2 && tr_fn[old(tr_len)] == method("http.Client.Do") && tr_obj[old(tr_len)] == simpleHTTPSelf.client && tr_arg[old(tr_len)] == boxed(r0.Request) && r0.Err == tr_err[old(tr_len)]
+//@   ensures as-defined: r0.Request != nil ==> fresh(r0.Request) && r0.Request.Method == method && r0.Request.URL != nil && urlString(r0.Request.URL) == givenURL && (header != nil ==> r0.Request.Header == header)
+//@   ensures answered: r0.Request != nil && r0.Err == nil ==> r0.Response != nil && !untyped(r0.Response.Body)
+
+//@ func (SimpleHTTPDef).DoNewRequestWithBodyOptions
+//@   prop C17
+//@   opt callbacks=effectful
+//@   opt effects=trace
+//@   modifies header
+//@   requires simpleHTTPSelf != nil && simpleHTTPSelf.client != nil
+//@   ensures result: r0 != nil && fresh(r0)
+//@   ensures not-built: r0.Request == nil ==> tr_len == old(tr_len) && r0.Err != nil
+//@   ensures sent-once: r0.Request != nil ==> tr_len == old(tr_len)+1 && tr_kind[old(tr_len)] == 2 && tr_fn[old(tr_len)] == method("http.Client.Do") && tr_obj[old(tr_len)] == simpleHTTPSelf.client && tr_arg[old(tr_len)] == boxed(r0.Request) && r0.Err == tr_err[old(tr_len)]
+//@   ensures as-defined: r0.Request != nil ==> fresh(r0.Request) && r0.Request.Method == method && r0.Request.URL != nil && urlString(r0.Request.URL) == givenURL && r0.Request.Body == reqBodyOf(body) && (header != nil ==> r0.Request.Header == header)
+//@   ensures content-type: r0.Request != nil && contentType != "" ==> r0.Request.Header != nil && has(r0.Request.Header, "Content-Type") && (header != nil ==> r0.Request.Header["Content-Type"] == hdrAdded(old(header["Content-Type"]), contentType))
+//@   ensures answered: r0.Request != nil && r0.Err == nil ==> r0.Response != nil && !untyped(r0.Response.Body)
+
+// replacePathParams: BaseURL + "/" + the template with one ReplaceAll per supplied key, each applied to the result of the
+// previous one (acc), for every key of the map exactly once (keys[j] = j-th key in this run's iteration order):
+//   acc[0] = template,  acc[j+1] = ReplaceAll(acc[j], Sprintf("{%s}", keys[j]), Sprintf("%v", pathParam[keys[j]]))
+//@ func (SimpleAPIDef).replacePathParams
+//@   prop C17
+//@   ghost keys (Array Int Str)
+//@   ghost acc (Array Int Str)
+//@   ghostinit acc = store(acc, 0, relativeURL)
+//@   requires simpleAPISelf != nil
+//@   ensures every-key-once: forall(j, 0, len(pathParam), has(pathParam, keys[j])) && forall2(j, 0, len(pathParam), l, 0, len(pathParam), j != l ==> keys[j] != keys[l])
+//@   ensures accumulates: acc[0] == relativeURL && forall(j, 0, len(pathParam), acc[j+1] == replaceAll(acc[j], sprintf("{%s}", keys[j]), sprintf("%v", pathParam[keys[j]])))
+//@   ensures url: r0 == simpleAPISelf.BaseURL + "/" + acc[len(pathParam)]
+//@ func (SimpleAPIDef).replacePathParams loop 0
+//@   ghostset keys = store(keys, _i, k)
+//@   ghostset acc = store(acc, _i+1, finalURL)
+//@   invariant keys-so-far: forall(j, 0, _i, keys[j] == _keyat(j))
+//@   invariant accumulates: acc[0] == relativeURL && finalURL == acc[_i] && forall(j, 0, _i, acc[j+1] == replaceAll(acc[j], sprintf("{%s}", keys[j]), sprintf("%v", pathParam[keys[j]])))
+
+// decodeResponseBody never panics: a read error or a deserializer error comes back as Err on the same response object; the
+// deserializer is called exactly once with the bytes read and the caller's target; its result becomes TargetObject only when it
+// is a *R (whatever a custom deserializer returns)
+//@ func decodeResponseBody
+//@   prop C17
+//@   opt callbacks=effectful
+//@   opt effects=trace
+//@   modifies response
+//@   requires simpleAPISelf != nil && simpleAPISelf.ResponseDeserializer != nil && response != nil && response.Response != nil && !untyped(response.Response.Body)
+//@   ensures same-object: r0 == response
+//@   ensures read-failed: tr_len == old(tr_len) ==> r0.Err != nil && r0.TargetObject == old(response.TargetObject)
+//@   ensures decoded-once: tr_len != old(tr_len) ==> tr_len == old(tr_len)+1 && tr_kind[old(tr_len)] == 1 && tr_fn[old(tr_len)] == simpleAPISelf.ResponseDeserializer && tr_args[old(tr_len)][1] == boxed(target) && r0.Err == tr_err[old(tr_len)]
+
+// ---------------------------------------------------------------------------------------------------
+// The API constructors.  Three layers, each with its own contract:
+//  (1) APIMakeXxx and the generic constructor run nothing (the trace is unchanged) and return the constructor's literal 0
+//      capturing exactly their arguments; the named ones pass the verb / content type / serializer their name promises;
+//  (2) literal 0 - the func(pathParam, [body,] target) the user calls - runs nothing and returns a MonadIO whose effect is
+//      literal 1 (created in that call), with no handlers;
+//  (3) literal 1 - the effect, verified for arbitrary captured state, so for every evaluation - serializes (when there is a
+//      body), sends at most one request - none when serializing or building the request failed - with the captured method,
+//      the URL replacePathParams returned for the captured template and parameters, a header that is a fresh clone of
+//      DefaultHeader (never the shared map), the serializer's reader and the declared content type; a transport error comes
+//      back as Err; otherwise the answer goes through decodeResponseBody once.
+//@ define API_WF(a) = a != nil && a.simpleHTTP != nil && a.simpleHTTP.client != nil && a.ResponseDeserializer != nil
+
+//@ func APIMakeDoNewRequest
+//@   prop C17
+//@   opt callbacks=effectful
+//@   opt effects=trace
+//@   opt returns-lit=0
+//@   ensures lazy: tr_len == old(tr_len)
+//@ func APIMakeDoNewRequest lit 0
+//@   prop C17
+//@   opt callbacks=effectful
+//@   opt effects=trace
+//@   ensures lazy: tr_len == old(tr_len)
+//@   ensures deferred: r0 != nil && fresh(r0) && r0.effect == _lit1 && r0.obOn == nil && r0.subOn == nil
+//@ func APIMakeDoNewRequest lit 1
+//@   prop C17
+//@   opt callbacks=effectful
+//@   opt effects=trace
+//@   requires API_WF(simpleAPISelf)
+//@   ensures result: r0 != nil
+//@   ensures defined-request: DoNewRequest_arg_method == method && DoNewRequest_arg_givenURL == replacePathParams_r0 && replacePathParams_arg_relativeURL == relativeURL && replacePathParams_arg_pathParam == pathParam && DoNewRequest_arg_simpleHTTPSelf == simpleAPISelf.simpleHTTP
+//@   ensures header-is-a-copy: (simpleAPISelf.DefaultHeader == nil ==> DoNewRequest_arg_header == nil) && (simpleAPISelf.DefaultHeader != nil ==> DoNewRequest_arg_header != nil && fresh(DoNewRequest_arg_header) && DoNewRequest_arg_header != simpleAPISelf.DefaultHeader)
+//@   ensures not-built: DoNewRequest_r0.Request == nil ==> tr_len == old(tr_len) && r0.ResponseWithError.Err != nil
+//@   ensures one-request: DoNewRequest_r0.Request != nil ==> tr_len >= old(tr_len)+1 && tr_kind[old(tr_len)] == 2 && tr_fn[old(tr_len)] == method("http.Client.Do") && tr_obj[old(tr_len)] == simpleAPISelf.simpleHTTP.client && tr_arg[old(tr_len)] == boxed(DoNewRequest_r0.Request) && forall(k, old(tr_len)+1, tr_len, tr_kind[k] != 2)
+//@   ensures transport-error: DoNewRequest_r0.Request != nil && tr_err[old(tr_len)] != nil ==> tr_len == old(tr_len)+1 && r0.ResponseWithError.Err == tr_err[old(tr_len)]
+//@   ensures decoded: DoNewRequest_r0.Request != nil && tr_err[old(tr_len)] == nil ==> r0 == decodeResponseBody_r0 && decodeResponseBody_arg_target == target && tr_len <= old(tr_len)+2
+
+//@ define REQ_EVENT(e, api, rwe) = tr_kind[e] == 2 && tr_fn[e] == method("http.Client.Do") && tr_obj[e] == api.simpleHTTP.client && tr_arg[e] == boxed(rwe.Request)
+
+//@ func APIMakeDoNewRequestWithBodySerializer
+//@   prop C17
+//@   opt callbacks=effectful
+//@   opt effects=trace
+//@   opt returns-lit=0
+//@   ensures lazy: tr_len == old(tr_len)
+//@ func APIMakeDoNewRequestWithBodySerializer lit 0
+//@   prop C17
+//@   opt callbacks=effectful
+//@   opt effects=trace
+//@   ensures lazy: tr_len == old(tr_len)
+//@   ensures deferred: r0 != nil && fresh(r0) && r0.effect == _lit1 && r0.obOn == nil && r0.subOn == nil
+//@ func APIMakeDoNewRequestWithBodySerializer lit 1
+//@   prop C17
+//@   opt callbacks=effectful
+//@   opt effects=trace
+//@   requires API_WF(simpleAPISelf) && bodySerializer != nil
+//@   ensures result: r0 != nil
+//@   ensures serialized-first: !absent(body) ==> tr_len >= old(tr_len)+1 && tr_kind[old(tr_len)] == 1 && tr_fn[old(tr_len)] == bodySerializer && tr_arg[old(tr_len)] == body
+//@   ensures serializer-error: !absent(body) && tr_err[old(tr_len)] != nil ==> tr_len == old(tr_len)+1 && r0.ResponseWithError.Err == tr_err[old(tr_len)]
+//@   ensures defined-request: absent(body) || tr_err[old(tr_len)] == nil ==> DoNewRequestWithBodyOptions_arg_method == method && DoNewRequestWithBodyOptions_arg_givenURL == replacePathParams_r0 && replacePathParams_arg_relativeURL == relativeURL && replacePathParams_arg_pathParam == pathParam && DoNewRequestWithBodyOptions_arg_contentType == contentType && DoNewRequestWithBodyOptions_arg_simpleHTTPSelf == simpleAPISelf.simpleHTTP
+//@   ensures body-sent: (absent(body) ==> untyped(DoNewRequestWithBodyOptions_arg_body)) && (!absent(body) && tr_err[old(tr_len)] == nil ==> DoNewRequestWithBodyOptions_arg_body == tr_ress[old(tr_len)][0])
+//@   ensures header-is-a-copy: absent(body) || tr_err[old(tr_len)] == nil ==> (simpleAPISelf.DefaultHeader == nil ==> DoNewRequestWithBodyOptions_arg_header == nil) && (simpleAPISelf.DefaultHeader != nil ==> DoNewRequestWithBodyOptions_arg_header != nil && fresh(DoNewRequestWithBodyOptions_arg_header) && DoNewRequestWithBodyOptions_arg_header != simpleAPISelf.DefaultHeader)
+//@   ensures one-request-no-body: absent(body) && DoNewRequestWithBodyOptions_r0.Request != nil ==> tr_len >= old(tr_len)+1 && REQ_EVENT(old(tr_len), simpleAPISelf, DoNewRequestWithBodyOptions_r0) && forall(k, old(tr_len)+1, tr_len, tr_kind[k] != 2)
+//@   ensures one-request-body: !absent(body) && tr_err[old(tr_len)] == nil && DoNewRequestWithBodyOptions_r0.Request != nil ==> tr_len >= old(tr_len)+2 && REQ_EVENT(old(tr_len)+1, simpleAPISelf, DoNewRequestWithBodyOptions_r0) && forall(k, old(tr_len)+2, tr_len, tr_kind[k] != 2)
+//@   ensures not-built: (absent(body) || tr_err[old(tr_len)] == nil) && DoNewRequestWithBodyOptions_r0.Request == nil ==> forall(k, old(tr_len), tr_len, tr_kind[k] != 2) && r0.ResponseWithError.Err != nil
+//@   ensures transport-error: (absent(body) || tr_err[old(tr_len)] == nil) && DoNewRequestWithBodyOptions_r0.Request != nil && DoNewRequestWithBodyOptions_r0.Err != nil ==> r0.ResponseWithError.Err == DoNewRequestWithBodyOptions_r0.Err
+//@   ensures decoded: (absent(body) || tr_err[old(tr_len)] == nil) && DoNewRequestWithBodyOptions_r0.Request != nil && DoNewRequestWithBodyOptions_r0.Err == nil ==> r0 == decodeResponseBody_r0 && decodeResponseBody_arg_target == target
+
+//@ func APIMakeDoNewRequestWithMultipartSerializer
+//@   prop C17
+//@   opt callbacks=effectful
+//@   opt effects=trace
+//@   opt returns-lit=0
+//@   ensures lazy: tr_len == old(tr_len)
+//@ func APIMakeDoNewRequestWithMultipartSerializer lit 0
+//@   prop C17
+//@   opt callbacks=effectful
+//@   opt effects=trace
+//@   ensures lazy: tr_len == old(tr_len)
+//@   ensures deferred: r0 != nil && fresh(r0) && r0.effect == _lit1 && r0.obOn == nil && r0.subOn == nil
+//@ func APIMakeDoNewRequestWithMultipartSerializer lit 1
+//@   prop C17
+//@   opt callbacks=effectful
+//@   opt effects=trace
+//@   requires API_WF(simpleAPISelf) && multipartSerializer != nil
+//@   ensures result: r0 != nil
+//@   ensures serialized-first: !absent(boxed(body)) ==> tr_len >= old(tr_len)+1 && tr_kind[old(tr_len)] == 1 && tr_fn[old(tr_len)] == multipartSerializer && tr_arg[old(tr_len)] == boxed(body)
+//@   ensures serializer-error: !absent(boxed(body)) && tr_err[old(tr_len)] != nil ==> tr_len == old(tr_len)+1 && r0.ResponseWithError.Err == tr_err[old(tr_len)]
+//@   ensures defined-request: absent(boxed(body)) || tr_err[old(tr_len)] == nil ==> DoNewRequestWithBodyOptions_arg_method == method && DoNewRequestWithBodyOptions_arg_givenURL == replacePathParams_r0 && replacePathParams_arg_relativeURL == relativeURL && replacePathParams_arg_pathParam == pathParam && DoNewRequestWithBodyOptions_arg_simpleHTTPSelf == simpleAPISelf.simpleHTTP
+//@   ensures body-sent: (absent(boxed(body)) ==> untyped(DoNewRequestWithBodyOptions_arg_body) && DoNewRequestWithBodyOptions_arg_contentType == "") && (!absent(boxed(body)) && tr_err[old(tr_len)] == nil ==> DoNewRequestWithBodyOptions_arg_body == tr_ress[old(tr_len)][0] && boxed(DoNewRequestWithBodyOptions_arg_contentType) == tr_ress[old(tr_len)][1])
+//@   ensures header-is-a-copy: absent(boxed(body)) || tr_err[old(tr_len)] == nil ==> (simpleAPISelf.DefaultHeader == nil ==> DoNewRequestWithBodyOptions_arg_header == nil) && (simpleAPISelf.DefaultHeader != nil ==> DoNewRequestWithBodyOptions_arg_header != nil && fresh(DoNewRequestWithBodyOptions_arg_header) && DoNewRequestWithBodyOptions_arg_header != simpleAPISelf.DefaultHeader)
+//@   ensures one-request-no-body: absent(boxed(body)) && DoNewRequestWithBodyOptions_r0.Request != nil ==> tr_len >= old(tr_len)+1 && REQ_EVENT(old(tr_len), simpleAPISelf, DoNewRequestWithBodyOptions_r0) && forall(k, old(tr_len)+1, tr_len, tr_kind[k] != 2)
+//@   ensures one-request-body: !absent(boxed(body)) && tr_err[old(tr_len)] == nil && DoNewRequestWithBodyOptions_r0.Request != nil ==> tr_len >= old(tr_len)+2 && REQ_EVENT(old(tr_len)+1, simpleAPISelf, DoNewRequestWithBodyOptions_r0) && forall(k, old(tr_len)+2, tr_len, tr_kind[k] != 2)
+//@   ensures not-built: (absent(boxed(body)) || tr_err[old(tr_len)] == nil) && DoNewRequestWithBodyOptions_r0.Request == nil ==> forall(k, old(tr_len), tr_len, tr_kind[k] != 2) && r0.ResponseWithError.Err != nil
+//@   ensures transport-error: (absent(boxed(body)) || tr_err[old(tr_len)] == nil) && DoNewRequestWithBodyOptions_r0.Request != nil && DoNewRequestWithBodyOptions_r0.Err != nil ==> r0.ResponseWithError.Err == DoNewRequestWithBodyOptions_r0.Err
+//@   ensures decoded: (absent(boxed(body)) || tr_err[old(tr_len)] == nil) && DoNewRequestWithBodyOptions_r0.Request != nil && DoNewRequestWithBodyOptions_r0.Err == nil ==> r0 == decodeResponseBody_r0 && decodeResponseBody_arg_target == target
+
+// the named constructors: nothing runs, and what is returned is the generic constructor's result for exactly the promised verb,
+// content type and serializer (and the caller's API object and template)
+//@ func APIMakeGet
+//@   prop C17
+//@   opt callbacks=effectful
+//@   opt effects=trace
+//@   ensures lazy: tr_len == old(tr_len)
+//@   ensures delegates: r0 == APIMakeDoNewRequest_r0 && APIMakeDoNewRequest_arg_simpleAPISelf == simpleAPISelf && APIMakeDoNewRequest_arg_relativeURL == relativeURL && APIMakeDoNewRequest_arg_method == "GET"
+//@ func APIMakeDelete
+//@   prop C17
+//@   opt callbacks=effectful
+//@   opt effects=trace
+//@   ensures lazy: tr_len == old(tr_len)
+//@   ensures delegates: r0 == APIMakeDoNewRequest_r0 && APIMakeDoNewRequest_arg_simpleAPISelf == simpleAPISelf && APIMakeDoNewRequest_arg_relativeURL == relativeURL && APIMakeDoNewRequest_arg_method == "DELETE"
+//@ func APIMakePostJSONBody
+//@   prop C17
+//@   opt callbacks=effectful
+//@   opt effects=trace
+//@   ensures lazy: tr_len == old(tr_len)
+//@   requires simpleAPISelf != nil
+//@   ensures delegates: r0 == APIMakeDoNewRequestWithBodySerializer_r0 && APIMakeDoNewRequestWithBodySerializer_arg_simpleAPISelf == simpleAPISelf && APIMakeDoNewRequestWithBodySerializer_arg_relativeURL == relativeURL && APIMakeDoNewRequestWithBodySerializer_arg_method == "POST" && APIMakeDoNewRequestWithBodySerializer_arg_contentType == "application/json" && APIMakeDoNewRequestWithBodySerializer_arg_bodySerializer == old(simpleAPISelf.RequestSerializerForJSON)
+//@ func APIMakePutJSONBody
+//@   prop C17
+//@   opt callbacks=effectful
+//@   opt effects=trace
+//@   ensures lazy: tr_len == old(tr_len)
+//@   requires simpleAPISelf != nil
+//@   ensures delegates: r0 == APIMakeDoNewRequestWithBodySerializer_r0 && APIMakeDoNewRequestWithBodySerializer_arg_simpleAPISelf == simpleAPISelf && APIMakeDoNewRequestWithBodySerializer_arg_relativeURL == relativeURL && APIMakeDoNewRequestWithBodySerializer_arg_method == "PUT" && APIMakeDoNewRequestWithBodySerializer_arg_contentType == "application/json" && APIMakeDoNewRequestWithBodySerializer_arg_bodySerializer == old(simpleAPISelf.RequestSerializerForJSON)
+//@ func APIMakePatchJSONBody
+//@   prop C17
+//@   opt callbacks=effectful
+//@   opt effects=trace
+//@   ensures lazy: tr_len == old(tr_len)
+//@   requires simpleAPISelf != nil
+//@   ensures delegates: r0 == APIMakeDoNewRequestWithBodySerializer_r0 && APIMakeDoNewRequestWithBodySerializer_arg_simpleAPISelf == simpleAPISelf && APIMakeDoNewRequestWithBodySerializer_arg_relativeURL == relativeURL && APIMakeDoNewRequestWithBodySerializer_arg_method == "PATCH" && APIMakeDoNewRequestWithBodySerializer_arg_contentType == "application/json" && APIMakeDoNewRequestWithBodySerializer_arg_bodySerializer == old(simpleAPISelf.RequestSerializerForJSON)
+//@ func APIMakePostMultipartBody
+//@   prop C17
+//@   opt callbacks=effectful
+//@   opt effects=trace
+//@   ensures lazy: tr_len == old(tr_len)
+//@   requires simpleAPISelf != nil
+//@   ensures delegates: r0 == APIMakeDoNewRequestWithMultipartSerializer_r0 && APIMakeDoNewRequestWithMultipartSerializer_arg_simpleAPISelf == simpleAPISelf && APIMakeDoNewRequestWithMultipartSerializer_arg_relativeURL == relativeURL && APIMakeDoNewRequestWithMultipartSerializer_arg_method == "POST" && APIMakeDoNewRequestWithMultipartSerializer_arg_multipartSerializer == old(simpleAPISelf.RequestSerializerForMultipart)
+//@ func APIMakePutMultipartBody
+//@   prop C17
+//@   opt callbacks=effectful
+//@   opt effects=trace
+//@   ensures lazy: tr_len == old(tr_len)
+//@   requires simpleAPISelf != nil
+//@   ensures delegates: r0 == APIMakeDoNewRequestWithMultipartSerializer_r0 && APIMakeDoNewRequestWithMultipartSerializer_arg_simpleAPISelf == simpleAPISelf && APIMakeDoNewRequestWithMultipartSerializer_arg_relativeURL == relativeURL && APIMakeDoNewRequestWithMultipartSerializer_arg_method == "PUT" && APIMakeDoNewRequestWithMultipartSerializer_arg_multipartSerializer == old(simpleAPISelf.RequestSerializerForMultipart)
+//@ func APIMakePatchMultipartBody
+//@   prop C17
+//@   opt callbacks=effectful
+//@   opt effects=trace
+//@   ensures lazy: tr_len == old(tr_len)
+//@   requires simpleAPISelf != nil
+//@   ensures delegates: r0 == APIMakeDoNewRequestWithMultipartSerializer_r0 && APIMakeDoNewRequestWithMultipartSerializer_arg_simpleAPISelf == simpleAPISelf && APIMakeDoNewRequestWithMultipartSerializer_arg_relativeURL == relativeURL && APIMakeDoNewRequestWithMultipartSerializer_arg_method == "PATCH" && APIMakeDoNewRequestWithMultipartSerializer_arg_multipartSerializer == old(simpleAPISelf.RequestSerializerForMultipart)
